@@ -47,3 +47,9 @@ Lemma mapping_cleanup_shape_known : MappingCleanupFound = true.
 Proof. reflexivity. Qed.
 Lemma bridge_close_shape_known : BridgeCloseFound = true.
 Proof. reflexivity. Qed.
+
+(* round 4: DisposeWithTimeout's result channel and CloseConnection's delete/close order were found and classified *)
+Lemma dispose_timeout_shape_known : DisposeTimeoutShapeFound = true.
+Proof. reflexivity. Qed.
+Lemma close_connection_shape_known : CloseConnectionShapeFound = true.
+Proof. reflexivity. Qed.
